@@ -115,6 +115,24 @@ func cmdHelpers(args []string) int {
 			fmt.Println(err)
 			return 2
 		}
+		if strings.HasSuffix(*replay, ".scase") {
+			for _, l := range strings.Split(string(b), "\n") {
+				var sd int64
+				if n, _ := fmt.Sscanf(l, "waitsem seed=%d", &sd); n == 1 {
+					fails, line := helpers.WaitSemScenario(sd)
+					fmt.Println(line)
+					for _, f := range fails {
+						fmt.Println("MONITOR C20:", f)
+					}
+					if len(fails) > 0 {
+						return 1
+					}
+					return 0
+				}
+			}
+			fmt.Println("not a waitsem case")
+			return 2
+		}
 		if strings.HasSuffix(*replay, ".ccase") {
 			for _, l := range strings.Split(string(b), "\n") {
 				var sd int64
